@@ -1,5 +1,5 @@
 """C13 — EnumIs predicates partition the variants; EnumTryAs returns payloads unchanged."""
-from vlib.defs import Item, Variant, Field, DISABLED, ser, msg
+from vlib.defs import Item, Variant, Field, DISABLED, ser, msg, raw, doc
 from vlib.run import Corpus
 from vlib import structs as T
 from vlib import gen as G
@@ -36,7 +36,10 @@ def build_corpus(tier, rng):
                 else:
                     v = Variant(ident, "tuple", [Field(t) for t in TYSETS[(i * 3 + rep + n) % len(TYSETS)]])
                 if (i + rep) % 4 == 3:
-                    v.metas = [[DISABLED], [ser("s%d" % i), DISABLED], [DISABLED, msg("m")]][(i + n) % 3]
+                    v.metas = [[DISABLED], [ser("s%d" % i), DISABLED], [DISABLED, msg("m")], [raw("doc(hidden)"), DISABLED],
+                               [raw('doc(alias = "a")'), doc(" d"), DISABLED]][(i + n + rep) % 5]
+                elif (i + rep) % 4 == 1:
+                    v.metas = [raw("doc(hidden)"), ser("vis%d" % i)]
                 vs.append(v)
             items.append(("shape", Item("E", vs)))
     for mask in range(16):
@@ -48,8 +51,8 @@ def build_corpus(tier, rng):
     # lifetimes (EnumIs / EnumTryAs accept them)
     items.append(("lifetime", Item("E", [Variant("Borrowed", "tuple", [Field("&'l0 str"), Field("u8")]), Variant("Owned", "tuple", [Field("String")]),
                                         Variant("Nothing", "unit")], lifetimes=1)))
-    names = G.model_query(ID, [it for _, it in items], [("is", ["names"]), ("tryas", ["names"])])
-    for (fam, it), (isn, tan) in zip(items, names):
+    names = G.model_query(ID, [it for _, it in items], [("is", ["names"]), ("tryas", ["names"]), ("is", ["allnames"])])
+    for (fam, it), (isn, tan, alln) in zip(items, names):
         if isn.startswith("generr") or tan.startswith("generr"):
             continue
         is_names = [x for x in isn.strip("[]").split(";") if x]
@@ -69,7 +72,9 @@ def build_corpus(tier, rng):
                 vals.append((i, d, "default"))
                 vals.append((i, s, "sample"))
                 vals.append((i, [s[0]] + d[1:], "mut-of-default"))
-        k = c.add_def(it, family=fam, derives=["EnumIs", "EnumTryAs"], is_names=is_names, tryas_names=list(zip(ta, tuple_vs)),
+        snakes = [x for x in alln.strip("[]").split(";")]
+        absent_is = ["is_" + snakes[i] for i, v in enumerate(it.variants) if v.has("disabled") and "is_" + snakes[i] not in is_names]
+        k = c.add_def(it, family=fam, derives=["EnumIs", "EnumTryAs"], is_names=is_names, tryas_names=list(zip(ta, tuple_vs)), absent_is=absent_is,
                       vals=vals, std_derives=["Debug", "Clone", "PartialEq"], bounds="Default + Clone + PartialEq + core::fmt::Debug" if it.tparams else "")
         for j, (i, _, tag) in enumerate(vals):
             c.add_q(k, "is", [j, i], note=tag)
@@ -93,6 +98,12 @@ def compare(corpus, k, kind, args, note, iobs, mobs, cfg):
     meta = corpus.meta[k]
     i = int(args[1])
     if kind == "is":
+        # no predicate may exist for a disabled variant: the harness's fallback trait must have answered every probe
+        absent = meta.get("absent_is", [])
+        if absent:
+            iobs, _, ab = iobs.partition("|absent=")
+            if ab != "%d/%d" % (len(absent), len(absent)):
+                return False, True, "a predicate exists for a disabled variant (fallback used %s times)" % ab
         ok = iobs == mobs
         # the property on the model's answer: exactly the predicate named after an enabled variant is true
         trues = [x for x in mobs.strip("[]").split(";") if x.endswith("=1")]
